@@ -2821,6 +2821,78 @@ fn decorate(rng: &mut Rng, c: &mut Case, len: usize) {
     c.fam = format!("{}+fx", c.fam);
 }
 
+/// Several super() calls per definition (family `multi-super`): every definition of b0 at every
+/// level of a chain of 3..4 templates holds a sequence of 0..3 super() calls, each either the
+/// plain statement (`{{ super() }}`, FastSuper) or in value position (`{% set v5 = super() %}` then
+/// printed: the captured path of perform_super), in every order.  Each super() renders the next
+/// definition up, whatever ran before it in the same definition and from whichever depth the
+/// definition itself was reached.  Exhaustive for 3 levels (sequences up to 3) and for 4 levels
+/// (sequences up to 2 below the root, up to 1 in the third level).
+fn multi_super_families(out: &mut Vec<Case>) {
+    // sequences over {plain = 0, captured = 1} of length 0..=maxlen
+    let seqs = |maxlen: usize| -> Vec<Vec<u8>> {
+        let mut v: Vec<Vec<u8>> = vec![vec![]];
+        let mut last: Vec<Vec<u8>> = vec![vec![]];
+        for _ in 0..maxlen {
+            let mut next = vec![];
+            for s in &last {
+                for f in [0u8, 1] {
+                    let mut t = s.clone();
+                    t.push(f);
+                    next.push(t);
+                }
+            }
+            v.extend(next.iter().cloned());
+            last = next;
+        }
+        v
+    };
+    let body = |j: usize, forms: &[u8]| -> Vec<Item> {
+        let mut b = vec![tx(format!("T{j}:b0"))];
+        for (k, f) in forms.iter().enumerate() {
+            if *f == 0 {
+                b.push(Super);
+            } else {
+                b.push(SetSuper(5));
+                b.push(Text("(".into()));
+                b.push(EmitVar(5));
+                b.push(Text(")".into()));
+            }
+            b.push(Text(format!("<{j}.{k}>")));
+        }
+        b
+    };
+    let exts = ["txt", "html", "json"];
+    let mut push = |levels: Vec<Vec<u8>>, n: usize| {
+        let len = levels.len() + 1;
+        let mut tmpls = vec![];
+        for (j, forms) in levels.iter().enumerate() {
+            let mut t = simple(vec![ext('s', j + 1), CallBlock(0)], vec![(0, body(j, forms))]);
+            t.ext = exts[(n + j) % 3].into();
+            tmpls.push(t);
+        }
+        let mut root = simple(vec![tx("root".into()), CallBlock(0)], vec![(0, vec![tx(format!("T{}:b0", len - 1)), EmitVar(0)])]);
+        root.ext = exts[n % 3].into();
+        tmpls.push(root);
+        out.push(Case { fam: "multi-super".into(), tmpls });
+    };
+    let mut n = 0;
+    for a in seqs(3) {
+        for b in seqs(3) {
+            push(vec![a.clone(), b.clone()], n);
+            n += 1;
+        }
+    }
+    for a in seqs(2) {
+        for b in seqs(2) {
+            for c in seqs(1) {
+                push(vec![a.clone(), b.clone(), c.clone()], n);
+                n += 1;
+            }
+        }
+    }
+}
+
 /// maps yield their keys in sorted order: put the candidates of map arguments into the order in
 /// which the engine will iterate them (depends on the names the configuration gives the templates)
 fn canon_maps(pr: &Pr, items: &mut [Item]) {
@@ -2855,6 +2927,7 @@ fn cases(tier: &str) -> Vec<Case> {
     nested_autoescape_families(&mut out);
     local_id_families(&mut out);
     recovery_families(&mut out);
+    multi_super_families(&mut out);
     error_families(&mut out);
     all_small(&mut out, thorough);
     let n_plain = if thorough { 50_000 } else { 2_500 };
